@@ -19,6 +19,13 @@ static STAGE: std::sync::atomic::AtomicU8 = std::sync::atomic::AtomicU8::new(0);
 pub(crate) fn stage(n: u8) { STAGE.store(n, std::sync::atomic::Ordering::SeqCst); }
 fn stage_name() -> &'static str { match STAGE.load(std::sync::atomic::Ordering::SeqCst) { 0 => "build", 1 => "parse", 2 => "inject", 3 => "encode", 4 => "encode2", 6 => "side_effects", _ => "decode" } }
 const FID: u32 = 3; // the instrumented function (imports: 0 cond, 1 probe, 2 obs)
+/// "shifted" cases: the base module gets one more function import IN FRONT (index 0, unused), which is deleted
+/// through the API before or after the instrumentation: every function index - in the original body and in all
+/// injected code, through every lowering path - has to be remapped down by one at encode time, after which the
+/// output is the same module as in the unshifted case.
+static PAD: std::sync::atomic::AtomicU32 = std::sync::atomic::AtomicU32::new(0);
+fn pad() -> u32 { PAD.load(std::sync::atomic::Ordering::SeqCst) }
+fn fid() -> u32 { FID + pad() }
 
 fn blockty(v: &Value) -> we::BlockType {
     match v.as_str() {
@@ -40,6 +47,7 @@ fn base_module(body: &[Value], nresults: u64, nlocals: u64, nparams: u64) -> Vec
     }
     m.section(&t);
     let mut i = we::ImportSection::new();
+    if pad() > 0 { i.import("env", "pad", we::EntityType::Function(0)); }
     i.import("env", "cond", we::EntityType::Function(0));
     i.import("env", "probe", we::EntityType::Function(1));
     i.import("env", "obs", we::EntityType::Function(1));
@@ -48,7 +56,7 @@ fn base_module(body: &[Value], nresults: u64, nlocals: u64, nparams: u64) -> Vec
     f.function(2);
     m.section(&f);
     let mut e = we::ExportSection::new();
-    e.export("f", we::ExportKind::Func, FID);
+    e.export("f", we::ExportKind::Func, fid());
     m.section(&e);
     let mut c = we::CodeSection::new();
     let mut b = we::Function::new(if nlocals > 0 { vec![(nlocals as u32, we::ValType::I32)] } else { vec![] });
@@ -69,7 +77,7 @@ fn base_module(body: &[Value], nresults: u64, nlocals: u64, nparams: u64) -> Vec
                 let ts: Vec<u32> = a[1].as_array().unwrap().iter().map(|x| x.as_u64().unwrap() as u32).collect();
                 b.instruction(&I::BrTable(ts.into(), n(2)));
             }
-            "call" => { b.instruction(&I::Call(n(1))); }
+            "call" => { b.instruction(&I::Call(n(1) + pad())); }
             "i32.const" => { b.instruction(&I::I32Const(a[1].as_i64().unwrap() as i32)); }
             "return" => { b.instruction(&I::Return); }
             "unreachable" => { b.instruction(&I::Unreachable); }
@@ -90,7 +98,7 @@ fn probe_op(v: &Value) -> Operator<'static> {
     let a = v.as_array().unwrap();
     match a[0].as_str().unwrap() {
         "i32.const" => Operator::I32Const { value: a[1].as_i64().unwrap() as i32 },
-        "call" => Operator::Call { function_index: a[1].as_u64().unwrap() as u32 },
+        "call" => Operator::Call { function_index: a[1].as_u64().unwrap() as u32 + pad() },
         "nop" => Operator::Nop,
         "drop" => Operator::Drop,
         other => panic!("driver: unknown probe op {other}"),
@@ -129,7 +137,7 @@ fn instrument_module(module: &mut Module<'static>, path: &str, plan: &[Value]) {
             loop {
                 let (loc, _) = it.curr_loc();
                 if let Location::Module { func_idx, instr_idx } = loc {
-                    if *func_idx == FID {
+                    if *func_idx == fid() {
                         for p in plan {
                             let mode = p["mode"].as_str().unwrap();
                             let ops = p["ops"].as_array().cloned().unwrap_or_default();
@@ -157,12 +165,12 @@ fn instrument_module(module: &mut Module<'static>, path: &str, plan: &[Value]) {
             }
         }
         "fnmod" | "fnmod_at" => {
-            let mut fm = module.functions.get_fn_modifier(FunctionID(FID)).expect("function modifier");
+            let mut fm = module.functions.get_fn_modifier(FunctionID(fid())).expect("function modifier");
             for p in plan {
                 let mode = p["mode"].as_str().unwrap();
                 let ops = p["ops"].as_array().cloned().unwrap_or_default();
                 let at = p["at"].as_u64().unwrap_or(0) as usize;
-                let loc = Location::Module { func_idx: FunctionID(FID), instr_idx: at };
+                let loc = Location::Module { func_idx: FunctionID(fid()), instr_idx: at };
                 match mode {
                     "empty_alt" => { fm.empty_alternate_at(loc); }
                     "empty_block_alt" => { fm.empty_block_alt_at(loc); }
@@ -290,6 +298,8 @@ fn run_case(case: &Value) -> Value {
     let path = case["path"].as_str().unwrap_or("moditer");
     let plan = case["plan"].as_array().cloned().unwrap_or_default();
     let twice = case["encode_twice"].as_bool().unwrap_or(false);
+    let shift = case["shift"].as_str().unwrap_or("");
+    PAD.store(if shift.is_empty() || path == "compiter" { 0 } else { 1 }, std::sync::atomic::Ordering::SeqCst);
     let base: &'static [u8] = Box::leak(base_module(body, nresults, nlocals, nparams).into_boxed_slice());
     if let Err(e) = validate(base) {
         return json!({ "id": case["id"], "ok": false, "base_invalid": e });
@@ -304,7 +314,7 @@ fn run_case(case: &Value) -> Value {
             loop {
                 let (loc, _) = it.curr_loc();
                 if let Location::Component { func_idx, instr_idx, .. } = loc {
-                    if *func_idx == FID {
+                    if *func_idx == fid() {
                         for p in &plan {
                             let mode = p["mode"].as_str().unwrap();
                             let ops = p["ops"].as_array().cloned().unwrap_or_default();
@@ -330,7 +340,9 @@ fn run_case(case: &Value) -> Value {
     } else {
         let mut module = Module::parse(base, false).expect("module parse");
         stage(2);
+        if pad() > 0 && shift == "before" { module.delete_func(FunctionID(0)); }
         instrument_module(&mut module, path, &plan);
+        if pad() > 0 && shift != "before" { module.delete_func(FunctionID(0)); }
         stage(3);
         let o1 = module.encode();
         stage(4);
